@@ -23,8 +23,14 @@ pub fn run(rng: &mut Rng, n: usize, out: &mut Out) {
         for j in (1..pairs.len()).rev() { let k = rng.below(j as u64 + 1) as usize; pairs.swap(j, k); }
         let well_formed = rng.chance(3, 4);
         let mut toks: Vec<String> = vec!["go".into()];
+        // a depth cap or a moves-to-go hint next to the clocks (before or after them) must not change the budget
+        let extra: Option<(String, String)> = if well_formed && rng.chance(1, 3) { Some((rng.pick(&["depth", "movestogo", "depth"]).to_string(), (1 + rng.below(60)).to_string())) } else { None };
+        let extra_first = rng.chance(1, 2);
         if well_formed {
+            if let (Some((k, v)), true) = (&extra, extra_first) { toks.push(k.clone()); toks.push(v.clone()); }
             for (k, v) in &pairs { toks.push(k.clone()); toks.push(v.clone()); }
+            if let (Some((k, v)), false) = (&extra, extra_first) { toks.push(k.clone()); toks.push(v.clone()); }
+            if extra.is_some() { out.count("well_formed_clock_with_depth_or_movestogo"); }
             out.count("well_formed_clock");
         } else {
             // interleave other tokens, junk, missing values, depth/movetime/infinite, bad numbers
@@ -50,7 +56,9 @@ pub fn run(rng: &mut Rng, n: usize, out: &mut Out) {
             let opp_i = if side == "w" { "binc" } else { "winc" };
             let toks2: Vec<String> = {
                 let mut v = vec!["go".to_string()];
+                if let (Some((k, x)), true) = (&extra, extra_first) { v.push(k.clone()); v.push(x.clone()); }
                 for (k, val) in &pairs { v.push(k.clone()); v.push(if k == opp_t || k == opp_i { value(rng) } else { val.clone() }); }
+                if let (Some((k, x)), false) = (&extra, extra_first) { v.push(k.clone()); v.push(x.clone()); }
                 v
             };
             let op2 = format!("go.pair {} {} | {}", side, toks.join(" "), toks2.join(" "));
